@@ -419,6 +419,11 @@ func TestCheck(t *testing.T) {
 			stranded++
 		}
 	}
+	for i := 0; i < ev.Pick(150, 3000) && stranded < 3; i++ {
+		if !freeStorm(fb, i) {
+			stranded++
+		}
+	}
 	fmissing, fres := tv.ValidateDoneChunked(tlc.Opts{Dir: "Processor", Module: "TraceProc", Config: "TraceProc.cfg", Workers: 16, Timeout: ev.Pick(6*time.Minute, 30*time.Minute), HeapMB: 8000}, fb)
 	fmt.Printf("TLC free-running validation: ok=%v traces=%d events=%d rejected=%d wall=%s %s\n", fres.OK, fb.Len(), fb.Lines(), len(fmissing), fres.Wall.Round(time.Millisecond), fres.What)
 	if !fres.OK {
